@@ -411,7 +411,7 @@ Proof.
   destruct (q_session q) as [s0|] eqn:Es.
   - destruct (monitor_session_on_model _ _ _ _ _ _ _ _ Hr Ht Hin Es) as [u [_ [_ Hc]]].
     nateq c t.
-    + left. rewrite Hc, Nat.eqb_refl. apply session_eqb_eq. reflexivity.
+    + left. rewrite Hc. apply session_eqb_eq. reflexivity.
     + right. unfold is_follower, has_session_question. rewrite Hl, Hq, Es.
       apply Nat.eqb_neq in E. rewrite E. auto.
   - left. unfold session_clause. rewrite Hq, Es.
